@@ -90,22 +90,48 @@ func genCLIScript(seed int64) cliScript {
 	return s
 }
 
-func (s cliScript) device() *devsim.CLI {
-	idx := 0
-	return &devsim.CLI{
-		Prompts: map[string]string{"exec": cliPrompt}, Mode: "exec", NL: s.NL,
-		Banner: []devsim.Token{devsim.T("c16 device" + s.NL)},
-		Handler: func(d *devsim.CLI, mode, line string) devsim.Reply {
-			if line == "" {
-				return devsim.Reply{}
-			}
-			if idx < len(s.Cmds) && s.Cmds[idx].Text == line {
-				idx++
-				return devsim.Reply{Out: []devsim.Token{devsim.T(s.Cmds[idx-1].Out)}}
-			}
-			return devsim.Reply{Out: []devsim.Token{devsim.T("% unexpected input" + d.NL)}}
-		},
+// motd is what a telnet server says right after accept, before anyone typed anything; longer than
+// the small read sizes so that the burst consumed during the client's negotiation window does not
+// fit one read.
+func motd(nl string) string {
+	var b strings.Builder
+	b.WriteString("c16 device" + nl)
+	for i := 0; i < 6; i++ {
+		b.WriteString(fmt.Sprintf("  notice %d: authorised use only, all activity on this system is recorded and reviewed", i) + nl)
 	}
+	return b.String()
+}
+
+// device builds the CLI device. login: the device first asks for user name and password (telnet).
+func (s cliScript) device(login ...bool) *devsim.CLI {
+	idx := 0
+	dev := &devsim.CLI{
+		Prompts: map[string]string{"exec": cliPrompt, "login": "Username: "}, Mode: "exec", NL: s.NL,
+		Banner: []devsim.Token{devsim.T("c16 device" + s.NL)},
+	}
+	if len(login) > 0 && login[0] {
+		dev.Mode = "login"
+		dev.Banner = []devsim.Token{devsim.T(motd(s.NL))}
+	}
+	dev.Handler = func(d *devsim.CLI, mode, line string) devsim.Reply {
+		if line == "" {
+			return devsim.Reply{}
+		}
+		if mode == "login" {
+			return devsim.Reply{Ask: &devsim.Ask{Prompt: "Password: ", Then: func(pw string) devsim.Reply {
+				if line == sshUser && pw == sshPw {
+					return devsim.Reply{NewMode: "exec", Out: []devsim.Token{devsim.T("last login: never" + d.NL)}}
+				}
+				return devsim.Reply{Out: []devsim.Token{devsim.T("access denied" + d.NL)}}
+			}}}
+		}
+		if idx < len(s.Cmds) && s.Cmds[idx].Text == line {
+			idx++
+			return devsim.Reply{Out: []devsim.Token{devsim.T(s.Cmds[idx-1].Out)}}
+		}
+		return devsim.Reply{Out: []devsim.Token{devsim.T("% unexpected input" + d.NL)}}
+	}
+	return dev
 }
 
 // cliOutcome is everything the caller of the library sees plus what the device received.
@@ -164,12 +190,22 @@ var baseOpts = func(rs int) []util.Option {
 func runE2ECLI(d Desc) mon.Result {
 	t0 := time.Now()
 	s := genCLIScript(d.Seed)
+	login := d.T == "telnet" // a telnet device talks first: banner + login prompt right after accept
 	// reference: ideal pipe
 	var ref cliOutcome
 	{
-		dev := s.device()
-		conn := devsim.NewConn(dev, devsim.Config{Seg: devsim.Seg{Mode: "whole"}})
-		gd, err := generic.NewDriver("ideal", append(baseOpts(d.ReadSize), options.WithCustomTransport(conn))...)
+		dev := s.device(login)
+		ccfg := devsim.Config{Seg: devsim.Seg{Mode: "whole"}}
+		var impl transport.Implementation
+		conn := devsim.NewConn(dev, ccfg)
+		impl = conn
+		if login { // the same in-channel login dialogue over the ideal pipe
+			ccfg.AuthType = "telnet"
+			conn = devsim.NewConn(dev, ccfg)
+			impl = &devsim.AuthConn{Conn: conn}
+		}
+		gd, err := generic.NewDriver("ideal", append(baseOpts(d.ReadSize), options.WithCustomTransport(impl),
+			options.WithAuthUsername(sshUser), options.WithAuthPassword(sshPw))...)
 		if err != nil {
 			return mon.Result{Verdict: mon.Inconclusive, Detail: "harness: " + err.Error()}
 		}
@@ -182,7 +218,7 @@ func runE2ECLI(d Desc) mon.Result {
 	}
 	// the real transport
 	var got cliOutcome
-	dev := s.device()
+	dev := s.device(login)
 	var sv *sshsim.Served
 	var smu sync.Mutex
 	serve := func(rw interface {
